@@ -10,6 +10,7 @@ type builder struct {
 	doc             *XMLDoc
 	dict            *DataDictionary
 	componentByName map[string]*XMLComponent
+	building        map[string]bool
 }
 
 func (b *builder) build(doc *XMLDoc) (*DataDictionary, error) {
@@ -30,6 +31,7 @@ func (b *builder) build(doc *XMLDoc) (*DataDictionary, error) {
 	}
 
 	b.componentByName = make(map[string]*XMLComponent)
+	b.building = make(map[string]bool)
 	for _, c := range doc.Components {
 		b.componentByName[c.Name] = c
 	}
@@ -84,6 +86,12 @@ func (b builder) findOrBuildComponentType(xmlMember *XMLComponentMember) (*Compo
 }
 
 func (b builder) buildComponentType(xmlComponent *XMLComponent) (*ComponentType, error) {
+	if b.building[xmlComponent.Name] {
+		return nil, fmt.Errorf("component %s includes itself", xmlComponent.Name)
+	}
+	b.building[xmlComponent.Name] = true
+	defer delete(b.building, xmlComponent.Name)
+
 	var parts []MessagePart
 
 	for _, member := range xmlComponent.Members {
